@@ -33,6 +33,17 @@ shipped configuration (TidalPy/defaultc.py) gives the magnitudes the ranges are 
           every branch by a 0/1 mask, so an overflowing unused branch would give 0*inf); Spohn slopes 0.5..1.2 x
           defaults, T 350..5000 K.
 
+Argument dtype routes (every family): `route` = float (3/6) | pyint | npint | zerod.  On a non-float route every
+integer-eligible quantity (times, ref_time, masses and viscosities < 2^62, half-lives, temperatures, pressures,
+thicknesses, conductivity, gravity, density, alpha, Ra_c, activation energy, stress, exponents, moduli, solidus/liquidus,
+slopes/phases) is first rounded to an integral value inside its range (_integralize; pairs and orderings are kept) and
+then passed as python int / np.int64 (int64 arrays in array mode, int tuples for half-lives) or as 0-d float64 arrays.
+  dtype_route      routed result == float64 result of the same numbers (ROUTE_TOL = 1e-11 relative; measured: identical
+                   or <= 2 eps); the routed result is what all other clauses judge.  A numba TypingError / TypeError for
+                   the routed call is a clean rejection of an undocumented dtype (label route_rejected:*, not a failure;
+                   seen only for arrhenius(additional_temp_dependence=True) with a 0-d temperature: `float *= 0-d array`).
+  inputs_mutated   every array argument (incl. 0-d) is copied before each call and must be unchanged afterwards.
+
 Oracles (metamorphic / invariant; "pairs" are two calls - or two elements of one array call - that differ in
 exactly one argument)
   radio/additive   isotope(all) == sum_i isotope(only i)                      (ADD_TOL  = 64 eps relative)
@@ -78,6 +89,7 @@ Sensitivity (tools/mut.py, quick tier, all CAUGHT):
   radiogenic_models.py  `total_specific_heating += ` -> `total_specific_heating = ` (dropped accumulation) -> radio/additive
   melting_models.py     henning `(melt_fraction_shape <= 0.) * premelt_viscosity` -> `... < 0.` -> melt/henning_zero
   viscosity_models.py   arrhenius `(E + P V)/(T R)` -> `(E - P V)/(T R)` (sign of the pressure term)   -> visc/mono_T
+  seeded/C19-3 (Ra rewritten with layer_thickness**3: int64 wrap for integer thicknesses >= 2^21 m) -> dtype_route + cool/finite
 Both proposed repairs (out/proposed-fix-C19-1.diff, -2.diff) applied to a scratch copy make the two known findings
 disappear and leave every other clause green (tools/mut.py --patch, 6 000 cases).
 """
@@ -114,7 +126,8 @@ LOGMAX = math.log(sys.float_info.max)
 MIN_THICKNESS = 50.0
 
 RULE = ('Hypothesis draws one of ten families (radio_isotope, radio_fixed, cool, visc_arrhenius, visc_reference, '
-        'visc_constant, melt_henning, melt_spohn, melt_off), its parameters log-uniformly in the ranges listed in the module '
+        'visc_constant, melt_henning, melt_spohn, melt_off), an argument dtype route (float64 | python int | np.int64/int64 arrays | 0-d arrays; '
+        'integer-eligible quantities are then rounded to integral values), its parameters log-uniformly in the ranges listed in the module '
         'docstring, the argument pairs/lists the monotonicity clauses need, and scalar|array calling mode. Non-trivial: '
         'radio - some time != ref_time and scale factor != 1; cool - dT2 > dT1, eta2 > eta1 and dT2 > float_eps; visc - at '
         'least two distinct temperatures; henning - at least two distinct melt fractions; spohn/off - always. '
@@ -161,6 +174,7 @@ def weighted(*pairs):
 
 STEP = weighted((st.floats(-6.0, 1.0).map(lambda u: 10.0 ** u), 4), (st.just(0.0), 1))   # relative pair step; 0.0 = one ulp
 BOOL = st.booleans()
+ROUTE = st.sampled_from(['float', 'float', 'float', 'pyint', 'npint', 'zerod'])
 
 
 def _bump(x, rel):
@@ -191,14 +205,14 @@ PHI = weighted((UNIT, 2), (st.sampled_from(PHI_TAGS), 1))
 
 def _s_radio_isotope():
     return st.fixed_dictionaries({
-        'family': st.just('radio_isotope'), 'array': BOOL, 'mass': MASS, 'ref_time': REF_TIME,
+        'family': st.just('radio_isotope'), 'array': BOOL, 'route': ROUTE, 'mass': MASS, 'ref_time': REF_TIME,
         'isotopes': st.lists(ISO, min_size=1, max_size=6), 'u': U_LIST, 'unit': st.sampled_from(['min', 'max']),
         'k': KFAC, 'j': st.integers(0, 5)})
 
 
 def _s_radio_fixed():
     return st.fixed_dictionaries({
-        'family': st.just('radio_fixed'), 'array': BOOL, 'mass': MASS, 'ref_time': REF_TIME,
+        'family': st.just('radio_fixed'), 'array': BOOL, 'route': ROUTE, 'mass': MASS, 'ref_time': REF_TIME,
         'rate': logu(1e-14, 1e-8), 'tau': weighted((TAU, 7), (st.just(0.0), 1)), 'u': U_LIST, 'k': KFAC})
 
 
@@ -216,7 +230,7 @@ def _build_cool(r):
 
 def _s_cool():
     return st.fixed_dictionaries({
-        'array': BOOL, 'dT1': weighted((st.just(0.0), 1), (DT, 2), (DT_BIG, 3)), 'dT2_abs': DT, 'dT_step': STEP,
+        'array': BOOL, 'route': ROUTE, 'dT1': weighted((st.just(0.0), 1), (DT, 2), (DT_BIG, 3)), 'dT2_abs': DT, 'dT_step': STEP,
         'eta1': ETA, 'eta_step': STEP,
         'k': logu(0.1, 100.0), 'kappa': logu(1e-8, 1e-4), 'alphaT': logu(1e-6, 1e-3),
         'L': weighted((st.sampled_from([50.0, math.nextafter(50.0, math.inf), math.nextafter(50.0, 0.0), 1.0, 49.0, 51.0]), 1),
@@ -247,19 +261,19 @@ TEMPS = st.fixed_dictionaries({'n': st.integers(2, 5), 't0': TEMP,
 
 def _s_visc_arrhenius():
     return st.fixed_dictionaries({
-        'family': st.just('visc_arrhenius'), 'array': BOOL, 'temps': TEMPS, 'P': PRESSURE, 'coeff': logu(1e-20, 1e10),
+        'family': st.just('visc_arrhenius'), 'array': BOOL, 'route': ROUTE, 'temps': TEMPS, 'P': PRESSURE, 'coeff': logu(1e-20, 1e10),
         'addT': BOOL, 'stress': logu(1e-2, 1e8), 'stress_expo': st.floats(1.0, 5.0), 'grain': logu(1e-6, 0.1),
         'grain_expo': st.floats(0.0, 3.0), 'E': ACT_E, 'V': ACT_VOL})
 
 
 def _s_visc_reference():
     return st.fixed_dictionaries({
-        'family': st.just('visc_reference'), 'array': BOOL, 'temps': TEMPS, 'P': PRESSURE, 'eta_ref': ETA_REF, 'T_ref': TEMP,
+        'family': st.just('visc_reference'), 'array': BOOL, 'route': ROUTE, 'temps': TEMPS, 'P': PRESSURE, 'eta_ref': ETA_REF, 'T_ref': TEMP,
         'E': weighted((ACT_E, 3), (logu(1e3, 7e5), 1), (st.sampled_from([0.0, 6.64e-20]), 1)), 'V': ACT_VOL})
 
 
 def _s_visc_constant():
-    return st.fixed_dictionaries({'family': st.just('visc_constant'), 'array': BOOL, 'temps': TEMPS, 'P': PRESSURE,
+    return st.fixed_dictionaries({'family': st.just('visc_constant'), 'array': BOOL, 'route': ROUTE, 'temps': TEMPS, 'P': PRESSURE,
                                   'eta_ref': ETA_REF})
 
 
@@ -274,7 +288,7 @@ def _build_henning(r):
 
 def _s_melt_henning():
     return st.fixed_dictionaries({
-        'family': st.just('melt_henning'), 'array': BOOL, 'phis': st.lists(PHI, min_size=2, max_size=6),
+        'family': st.just('melt_henning'), 'array': BOOL, 'route': ROUTE, 'phis': st.lists(PHI, min_size=2, max_size=6),
         'T_mode': st.sampled_from(['linked', 'linked', 'free']), 'T_free': st.floats(0.5, 1.5),
         'eta_liq': logu(1e-3, 1e4), 'eta_decades': weighted((st.floats(0.01, 25.0), 3), (st.floats(5.0, 25.0), 4), (st.just(0.0), 1)),
         'mu_pre': logu(1e7, 1e12), 'mu_liq': logu(1e-8, 1e2), 'solidus': st.floats(150.0, 3000.0),
@@ -286,14 +300,14 @@ def _s_melt_henning():
 
 def _s_melt_spohn():
     return st.fixed_dictionaries({
-        'family': st.just('melt_spohn'), 'array': BOOL,
+        'family': st.just('melt_spohn'), 'array': BOOL, 'route': ROUTE,
         'pts': st.lists(st.tuples(UNIT, logu(350.0, 5000.0)).map(list), min_size=1, max_size=5),
         'eta_liq': logu(1e-3, 1e6), 'mu_liq': logu(1e-8, 1e2), 'visc_slope': st.floats(13500.0, 32400.0),
         'visc_phase': st.floats(0.0, 3.0), 'shear_slope': st.floats(41000.0, 98400.0), 'shear_phase': st.floats(30.0, 50.0)})
 
 
 def _s_melt_off():
-    return st.fixed_dictionaries({'family': st.just('melt_off'), 'array': BOOL,
+    return st.fixed_dictionaries({'family': st.just('melt_off'), 'array': BOOL, 'route': ROUTE,
                                   'phis': st.lists(UNIT, min_size=1, max_size=5),
                                   'eta_pre': logu(1e-3, 1e29), 'mu_pre': logu(1e-8, 1e12)})
 
@@ -334,12 +348,25 @@ def fixed_cases(tier):
                     'visc_falloff': 370.0, 'shear_p1_over_solidus': 25.0, 'shear_p2': 25.0, 'shear_falloff': 700.0})
         out.append({'family': 'melt_spohn', 'array': arr, 'pts': [[0.5, 1800.0], [0.9, 2500.0]], 'eta_liq': 1.0,
                     'mu_liq': 1e-5, 'visc_slope': 27000.0, 'visc_phase': 1.0, 'shear_slope': 82000.0, 'shear_phase': 40.6})
+    out.append({'family': 'cool', 'array': False, 'dT1': 1500.0, 'dT2': 3000.0, 'eta1': 1e21, 'eta2': 1e22, 'k': 4.0,
+                'kappa': 1.0e-6, 'alphaT': 3.0e-5, 'L': 2200000.0, 'g': 10.0, 'rho': 4500.0, 'alpha': 1.0, 'beta': 1.0 / 3.0,
+                'Rac': 1100.0, 'extras': []})      # thick mantle: L**3 does not fit an int64
+    return _with_routes(out)
+
+
+def _with_routes(cases):
+    out = []
+    for case in cases:
+        out.append(case)
+        for r in ('pyint', 'npint', 'zerod'):
+            out.append(dict(case, route=r))
     return out
 
 
 def required_labels(tier):
     return ['family:' + f for f in FAMILIES] + [
-        'scalar', 'array', 'radio:n=1', 'radio:n>=2', 'radio:t=ref', 'radio:t<ref', 'radio:t>ref', 'fixed:halflife=0',
+        'scalar', 'array', 'route:float', 'route:pyint', 'route:npint', 'route:zerod', 'route_applied:pyint',
+        'route_applied:npint', 'route_applied:zerod', 'radio:n=1', 'radio:n>=2', 'radio:t=ref', 'radio:t<ref', 'radio:t>ref', 'fixed:halflife=0',
         'cool:Nu>2', 'cool:Nu=2', 'cool:thin', 'cool:dT=0', 'visc:addT', 'visc:no_addT', 'visc:clamped', 'visc:unclamped',
         'henning:phi=0', 'henning:below_crit', 'henning:window', 'henning:beyond', 'henning:beyond_exact_checked', 'henning:eta_pre=eta_liq',
         'spohn:visc_clamped', 'spohn:visc_free', 'spohn:shear_clamped', 'spohn:shear_free']
@@ -358,7 +385,7 @@ def _rng(x, lo, hi):
 def in_domain(case):
     try:
         fam = case['family']
-        if not isinstance(case['array'], bool):
+        if not isinstance(case['array'], bool) or case.get('route', 'float') not in ROUTES:
             return False
         if fam == 'radio_isotope':
             isos = case['isotopes']
@@ -375,11 +402,11 @@ def in_domain(case):
             def dt_ok(x):
                 return x == 0.0 or _rng(x, 1e-14, 1e4)
             return (dt_ok(case['dT1']) and _rng(case['dT2'], 1e-14, 1.2e5) and case['dT2'] >= case['dT1']
-                    and _rng(case['eta1'], 1.0, 1e28) and _rng(case['eta2'], 1.0, 1.2e29) and case['eta2'] >= case['eta1']
+                    and _rng(case['eta1'], 1e-4, 1e28) and _rng(case['eta2'], 1e-4, 1.2e29) and case['eta2'] >= case['eta1']
                     and _rng(case['k'], 0.1, 100.0) and _rng(case['kappa'], 1e-8, 1e-4) and _rng(case['alphaT'], 1e-6, 1e-3)
                     and _rng(case['L'], 1.0, 1e7) and _rng(case['g'], 0.01, 100.0) and _rng(case['rho'], 100.0, 2e4)
                     and _rng(case['alpha'], 0.05, 5.0) and _rng(case['beta'], 0.0, 0.5) and _rng(case['Rac'], 100.0, 1e4)
-                    and len(case['extras']) <= 3 and all(len(e) == 2 and dt_ok(e[0]) and _rng(e[1], 1.0, 1e28)
+                    and len(case['extras']) <= 3 and all(len(e) == 2 and dt_ok(e[0]) and _rng(e[1], 1e-4, 1e28)
                                                          for e in case['extras']))
         if fam.startswith('visc_'):
             t = case['temps']
@@ -422,12 +449,69 @@ def in_domain(case):
 
 # ---- calling conventions --------------------------------------------------------------------------------------
 
-def _vec(fn, array, live, const, nout=1):
-    """Call fn(*live, *const) either once with equal-length float arrays (array mode) or once per point with
-    floats (scalar mode).  `live` is a list of equal-length lists.  Returns nout lists of floats."""
+ROUTES = ['float', 'pyint', 'npint', 'zerod']
+ROUTE_TOL = 1e-11
+INT_MAX = 2.0 ** 62
+_CTX = {'route': 'float', 'c': None}
+
+
+def _is_int(x):
+    return isinstance(x, float) and x.is_integer() and abs(x) < INT_MAX
+
+
+def _conv_scalar(x, route):
+    """One scalar / tuple argument on a dtype route (only called for arguments that are integer-eligible)."""
+    if isinstance(x, tuple):
+        if route in ('pyint', 'npint') and all(_is_int(t) for t in x):
+            return tuple(int(t) for t in x) if route == 'pyint' else tuple(np.int64(int(t)) for t in x)
+        return x
+    if isinstance(x, bool) or not isinstance(x, float):
+        return x
+    if route == 'zerod':
+        return np.array(x, dtype=np.float64)
+    if _is_int(x):
+        return int(x) if route == 'pyint' else np.int64(int(x))
+    return x
+
+
+def _conv_array(v, route):
+    if route in ('pyint', 'npint') and all(_is_int(float(t)) for t in v):
+        return np.array([int(t) for t in v], dtype=np.int64)
+    return np.array(v, dtype=np.float64)
+
+
+def _tname(a):
+    if isinstance(a, np.ndarray):
+        return '%s[%dd]' % (a.dtype, a.ndim)
+    if isinstance(a, tuple):
+        return 'tuple(%s)' % (type(a[0]).__name__ if a else '')
+    return type(a).__name__
+
+
+def _call(fn, array, live, const, nout, route, li, ci, name):
+    """fn(*live, *const) once with equal-length arrays (array mode) or once per point with scalars (scalar mode);
+    arguments whose index is in li / ci are passed on the dtype route.  Array arguments are copied before the call
+    and compared afterwards (inputs-not-mutated clause).  Returns (nout lists of floats, argument type names)."""
     n = len(live[0])
+    cargs = [(_conv_scalar(x, route) if (route != 'float' and j in ci) else x) for j, x in enumerate(const)]
+    types = None
+
+    def run(args):
+        saved = [(j, a.copy()) for j, a in enumerate(args) if isinstance(a, np.ndarray)]
+        res = fn(*args)
+        for j, before in saved:
+            after = args[j]
+            if after.dtype != before.dtype or after.shape != before.shape or not np.array_equal(after, before, equal_nan=True):
+                _CTX['c'].fail({'clause': 'inputs_mutated', 'fn': name},
+                               '%s changed its argument #%d (%s): before %r after %r' % (name, j, _tname(before), before, after))
+        return res
+
     if array:
-        res = fn(*[np.array(v, dtype=np.float64) for v in live], *const)
+        largs = [(_conv_array(v, route) if (route != 'float' and j in li) else np.array(v, dtype=np.float64))
+                 for j, v in enumerate(live)]
+        args = largs + cargs
+        types = [_tname(a) for a in args]
+        res = run(args)
         if nout == 1:
             res = (res,)
         outs = []
@@ -436,15 +520,51 @@ def _vec(fn, array, live, const, nout=1):
             if r.shape != (n,):
                 raise ValueError('array call returned shape %r for %d points' % (r.shape, n))
             outs.append([float(x) for x in r])
-        return outs
+        return outs, types
     outs = [[] for _ in range(nout)]
     for i in range(n):
-        res = fn(*[float(v[i]) for v in live], *const)
+        largs = [(_conv_scalar(float(v[i]), route) if (route != 'float' and j in li) else float(v[i])) for j, v in enumerate(live)]
+        args = largs + cargs
+        if types is None:
+            types = [_tname(a) for a in args]
+        res = run(args)
         if nout == 1:
             res = (res,)
         for o, r in zip(outs, res[:nout]):
             o.append(float(r))
-    return outs
+    return outs, types
+
+
+def _vec(fn, array, live, const, nout=1, name=None, li=(), ci=()):
+    """float64 call (always) and, when the case carries a dtype route, the same call with the integer-eligible
+    arguments passed as python int / np.int64 (int64 arrays in array mode) / 0-d float64 arrays.  The routed result
+    must equal the float64 result (ROUTE_TOL) and is the one handed to all other clauses.  A numba TypingError /
+    TypeError for the routed call is a clean rejection of an undocumented dtype (labelled, not a failure)."""
+    name = name or getattr(fn, '__name__', 'fn')
+    base, btypes = _call(fn, array, live, const, nout, 'float', (), (), name)
+    route = _CTX['route']
+    if route == 'float' or not (li or ci):
+        return base
+    from numba.core.errors import NumbaError
+    c = _CTX['c']
+    try:
+        routed, rtypes = _call(fn, array, live, const, nout, route, li, ci, name)
+    except (NumbaError, TypeError) as e:
+        c.label('route_rejected:%s:%s' % (route, name))
+        _CTX.setdefault('rejections', {})[(route, name)] = '%s: %s' % (type(e).__name__, str(e)[:200])
+        return base
+    if rtypes == btypes:
+        return base                               # nothing was integral: the route did not apply
+    c.label('route_applied:' + route, 'route_applied:%s:%s' % (route, name))
+    for j in range(nout):
+        for i, (x, y) in enumerate(zip(base[j], routed[j])):
+            same = (x == y) or (math.isnan(x) and math.isnan(y)) or _rel(x, y) <= ROUTE_TOL
+            if not same:
+                c.fail({'clause': 'dtype_route', 'fn': name, 'route': route},
+                       '%s %s: output %d point %d is %r with argument types %r but %r with float64 arguments; live=%r const=%r'
+                       % ('array' if array else 'scalar', name, j, i, y, rtypes, x, [v[i] for v in live], const))
+                return routed
+    return routed
 
 
 STATS = {}
@@ -464,11 +584,108 @@ def _rel(a, b):
     return abs(a - b) / max(abs(a), abs(b))
 
 
+# ---- dtype routes: make the integer-eligible quantities integral ----------------------------------------------------
+
+def _ri(x, lo=None, hi=None):
+    """Nearest integral float inside [lo, hi] (values beyond the int64 range stay as they are)."""
+    x = float(x)
+    if not abs(x) < INT_MAX:
+        return x
+    y = float(round(x))
+    if lo is not None:
+        y = max(y, float(lo))
+    if hi is not None:
+        y = min(y, float(hi))
+    return y
+
+
+def _above(x, y):
+    """Smallest integral float >= y that is > x (x integral)."""
+    y = _ri(y)
+    if y > x:
+        return y
+    z = x + 1.0
+    return z if z > x else math.nextafter(x, math.inf)
+
+
+def _integralize(case):
+    """Copy of the case in which every integer-eligible quantity (times, masses, half-lives, temperatures, pressures,
+    thicknesses, viscosities, moduli, slopes ...) is rounded to an integral value inside its generated range and the
+    ordering constraints (pairs, sorted temperatures, liquidus > solidus, pre-melt >= liquid) are kept."""
+    import copy
+    k = copy.deepcopy(case)
+    fam = k['family']
+    if fam == 'radio_isotope':
+        k['mass'], k['ref_time'] = _ri(k['mass']), _ri(k['ref_time'])
+        for iso in k['isotopes']:
+            iso[2] = _ri(iso[2], 1.0)
+    elif fam == 'radio_fixed':
+        k['mass'], k['ref_time'] = _ri(k['mass']), _ri(k['ref_time'])
+        if k['tau'] != 0.0:
+            k['tau'] = _ri(k['tau'], 1.0)
+    elif fam == 'cool':
+        def dt(x):
+            return 0.0 if x == 0.0 else _ri(x, 1.0)
+        k['dT1'] = dt(k['dT1'])
+        k['dT2'] = _above(k['dT1'], max(k['dT2'], 1.0))
+        k['eta1'] = _ri(k['eta1'], 1.0)
+        k['eta2'] = _above(k['eta1'], k['eta2']) if abs(k['eta2']) < INT_MAX else k['eta2']
+        k['extras'] = [[dt(a), _ri(b, 1.0)] for a, b in k['extras']]
+        k['k'], k['L'], k['g'] = _ri(k['k'], 1, 100), _ri(k['L'], 1, 1e7), _ri(k['g'], 1, 100)
+        k['rho'], k['alpha'], k['Rac'] = _ri(k['rho'], 100, 2e4), _ri(k['alpha'], 1, 5), _ri(k['Rac'], 100, 1e4)
+    elif fam.startswith('visc_'):
+        out = []
+        for t in k['temps']:
+            r = _ri(t, 50, 4500)
+            if out and r <= out[-1]:
+                r = out[-1] + 1.0
+            if r > 4500.0:
+                break
+            out.append(r)
+        if len(out) < 2:
+            out = [4499.0, 4500.0] if out[0] >= 4500.0 else [out[0], out[0] + 1.0]
+        k['temps'] = out
+        k['P'] = _ri(k['P'])
+        if 'eta_ref' in k and k['eta_ref'] >= 1.0:
+            k['eta_ref'] = _ri(k['eta_ref'])
+        if 'T_ref' in k:
+            k['T_ref'] = _ri(k['T_ref'], 50, 4500)
+        if 'E' in k:
+            k['E'] = _ri(k['E'])
+        if fam == 'visc_arrhenius':
+            k['stress'], k['stress_expo'], k['grain_expo'] = _ri(k['stress'], 1.0), _ri(k['stress_expo'], 1, 5), _ri(k['grain_expo'], 0, 3)
+    elif fam == 'melt_henning':
+        k['solidus'] = _ri(k['solidus'])
+        k['liquidus'] = _above(k['solidus'], k['liquidus'])
+        k['eta_liq'] = _ri(k['eta_liq'], 1.0)
+        k['eta_pre'] = max(_ri(k['eta_pre'], 1.0), k['eta_liq'])
+        k['mu_pre'], k['mu_liq'] = _ri(k['mu_pre']), _ri(k['mu_liq'], 1.0, 100.0)
+        k['visc_slope_1'], k['visc_falloff'], k['shear_p2'] = _ri(k['visc_slope_1']), _ri(k['visc_falloff']), _ri(k['shear_p2'])
+        k['shear_falloff'] = float(math.floor(k['shear_falloff']))
+    elif fam == 'melt_spohn':
+        k['pts'] = [[p, _ri(t, 350, 5000)] for p, t in k['pts']]
+        k['eta_liq'], k['mu_liq'] = _ri(k['eta_liq'], 1.0), _ri(k['mu_liq'], 1.0, 100.0)
+        k['visc_slope'], k['visc_phase'] = _ri(k['visc_slope']), _ri(k['visc_phase'], 0, 3)
+        k['shear_slope'], k['shear_phase'] = _ri(k['shear_slope']), _ri(k['shear_phase'], 30, 50)
+    elif fam == 'melt_off':
+        k['eta_pre'], k['mu_pre'] = _ri(k['eta_pre'], 1.0), _ri(k['mu_pre'], 1.0)
+    return k
+
+
+def _rt(x):
+    """Round a derived quantity (time, temperature, slope) to an integral float when the case is on a dtype route."""
+    return _ri(x) if _CTX['route'] != 'float' else x
+
+
 # ---- evaluate -----------------------------------------------------------------------------------------------------
 
 def evaluate(case):
     fam = case['family']
-    c = Collector(labels=['family:' + fam, 'array' if case['array'] else 'scalar'])
+    route = case.get('route', 'float')
+    c = Collector(labels=['family:' + fam, 'array' if case['array'] else 'scalar', 'route:' + route])
+    _CTX['route'], _CTX['c'] = route, c
+    if route != 'float':
+        case = _integralize(case)
     if fam == 'radio_isotope':
         _ev_isotope(case, c)
     elif fam == 'radio_fixed':
@@ -510,7 +727,7 @@ def _ev_isotope(case, c):
     k = float(case['k'])
     j = int(case['j']) % n
     tmin, tmax = min(TAU), max(TAU)
-    times = [ref + u * (tmin if (u < 0.0 or case['unit'] == 'min') else tmax) for u in case['u']]
+    times = [_rt(ref + u * (tmin if (u < 0.0 or case['unit'] == 'min') else tmax)) for u in case['u']]
     c.nontrivial = any(t != ref for t in times) and k != 1.0
     c.label('radio:n=1' if n == 1 else 'radio:n>=2')
     for t in times:
@@ -518,7 +735,7 @@ def _ev_isotope(case, c):
     md = _mode(case)
 
     def q(ts, m, f, cc, tau, hp):
-        return _vec(rm.isotope, arr, [ts], (m, f, cc, tau, hp, ref))[0]
+        return _vec(rm.isotope, arr, [ts], (m, f, cc, tau, hp, ref), name='isotope', li=(0,), ci=(0, 3, 5))[0]
 
     with repo_call('radiogenic_models.isotope'):
         total = q(times, mass, F, C, TAU, Q)
@@ -537,13 +754,13 @@ def _ev_isotope(case, c):
                 % (md, t, ref, total[ti], s, err / s if s else float('inf'), ADD_TOL, isos))
     # half-life: every isotope on its own, at ref + u*tau_i and one half-life later
     for i in range(n):
-        t1 = [ref + u * TAU[i] for u in case['u']]
+        t1 = [_rt(ref + u * TAU[i]) for u in case['u']]
         t2 = [t + TAU[i] for t in t1]
         with repo_call('radiogenic_models.isotope'):
             q1 = q(t1, mass, (F[i],), (C[i],), (TAU[i],), (Q[i],))
             q2 = q(t2, mass, (F[i],), (C[i],), (TAU[i],), (Q[i],))
-        for u, a, b, x1, x2 in zip(case['u'], t1, t2, q1, q2):
-            tol = _half_bound(u, a, b, ref, TAU[i])
+        for a, b, x1, x2 in zip(t1, t2, q1, q2):
+            tol = _half_bound((a - ref) / TAU[i], a, b, ref, TAU[i])
             if x1 > 0.0:
                 _stat('radio/halflife', abs(x2 - 0.5 * x1) / (tol * x1))
             c.check(math.isfinite(x1) and x1 > 0.0 and abs(x2 - 0.5 * x1) <= tol * x1, {'clause': 'radio/halflife', 'fn': 'isotope'},
@@ -587,10 +804,10 @@ def _ev_fixed(case, c):
     if tau == 0.0:
         # docstring: "Half life used for the decay of the fixed rate. Set to 0 for no decay"
         c.label('fixed:halflife=0')
-        times = [ref] + [ref + 1000.0 * u for u in case['u']]
+        times = [ref] + [_rt(ref + 1000.0 * u) for u in case['u']]
         c.nontrivial = True
         try:
-            got = _vec(rm.fixed, arr, [times], (mass, rate, 0.0, ref))[0]
+            got = _vec(rm.fixed, arr, [times], (mass, rate, 0.0, ref), name='fixed', li=(0,), ci=(0, 2, 3))[0]
         except Exception as e:  # keep the labels: report the exception as this clause's failure
             c.fail({'kind': 'exception', 'type': type(e).__name__, 'where': 'radiogenic_models.fixed[average_half_life=0]'},
                    '%s fixed(time=%r, mass=%r, rate=%r, average_half_life=0.0, ref_time=%r) raised %s: %s; the docstring '
@@ -601,19 +818,19 @@ def _ev_fixed(case, c):
             c.check(_rel(g, want) <= LIN_TOL, {'clause': 'radio/fixed_no_decay', 'fn': 'fixed', 'at_ref': t == ref},
                     '%s half-life 0 (documented: no decay): q(t=%r)=%r, mass*rate=%r (ref_time=%r)' % (md, t, g, want, ref))
         return
-    t1 = [ref + u * tau for u in case['u']]
+    t1 = [_rt(ref + u * tau) for u in case['u']]
     t2 = [t + tau for t in t1]
     c.nontrivial = any(t != ref for t in t1) and k != 1.0
     c.label('radio:n=1')
     for t in t1:
         c.label('radio:t=ref' if t == ref else ('radio:t<ref' if t < ref else 'radio:t>ref'))
     with repo_call('radiogenic_models.fixed'):
-        q1 = _vec(rm.fixed, arr, [t1], (mass, rate, tau, ref))[0]
-        q2 = _vec(rm.fixed, arr, [t2], (mass, rate, tau, ref))[0]
-        qm = _vec(rm.fixed, arr, [t1], (k * mass, rate, tau, ref))[0]
-        qref = _vec(rm.fixed, arr, [[ref]], (mass, rate, tau, ref))[0][0]
-    for u, a, b, x1, x2, xm in zip(case['u'], t1, t2, q1, q2, qm):
-        tol = _half_bound(u, a, b, ref, tau)
+        q1 = _vec(rm.fixed, arr, [t1], (mass, rate, tau, ref), name='fixed', li=(0,), ci=(0, 2, 3))[0]
+        q2 = _vec(rm.fixed, arr, [t2], (mass, rate, tau, ref), name='fixed', li=(0,), ci=(0, 2, 3))[0]
+        qm = _vec(rm.fixed, arr, [t1], (k * mass, rate, tau, ref), name='fixed', li=(0,), ci=(0, 2, 3))[0]
+        qref = _vec(rm.fixed, arr, [[ref]], (mass, rate, tau, ref), name='fixed', li=(0,), ci=(0, 2, 3))[0][0]
+    for a, b, x1, x2, xm in zip(t1, t2, q1, q2, qm):
+        tol = _half_bound((a - ref) / tau, a, b, ref, tau)
         if x1 > 0.0:
             _stat('radio/halflife', abs(x2 - 0.5 * x1) / (tol * x1))
             _stat('radio/linear', _rel(xm, k * x1) / LIN_TOL)
@@ -639,9 +856,10 @@ def _ev_cool(case, c):
     c.nontrivial = dT2 > dT1 and e2 > e1 and dT2 > FLOAT_EPS
     md = _mode(case)
     with repo_call('cooling_models.convection'):
-        fconv, blt, ra, nu = _vec(cm.convection, arr, [dts, etas], (k, kappa, aT, L, g, rho, alpha, beta, rac), nout=4)
+        fconv, blt, ra, nu = _vec(cm.convection, arr, [dts, etas], (k, kappa, aT, L, g, rho, alpha, beta, rac), nout=4,
+                                   name='convection', li=(0, 1), ci=(0, 3, 4, 5, 6, 8))
     with repo_call('cooling_models.conduction'):
-        fcond = _vec(cm.conduction, arr, [dts], (k, L), nout=4)[0]
+        fcond = _vec(cm.conduction, arr, [dts], (k, L), nout=4, name='conduction', li=(0,), ci=(0, 1))[0]
     ctx = 'k=%r kappa=%r alphaT=%r L=%r g=%r rho=%r alpha=%r beta=%r Ra_c=%r' % (k, kappa, aT, L, g, rho, alpha, beta, rac)
     if L <= MIN_THICKNESS:
         c.label('cool:thin')
@@ -689,7 +907,7 @@ def _ev_visc(case, c):
     R = _R()
     if fam == 'visc_constant':
         with repo_call('viscosity_models.constant'):
-            v = _vec(vm.constant, arr, [temps, press], (float(case['eta_ref']),))[0]
+            v = _vec(vm.constant, arr, [temps, press], (float(case['eta_ref']),), name='constant', li=(0, 1), ci=(0,))[0]
         c.check(all(x == float(case['eta_ref']) for x in v), {'clause': 'visc/constant'},
                 '%s constant law returned %r for reference %r' % (md, v, case['eta_ref']))
         return
@@ -700,7 +918,7 @@ def _ev_visc(case, c):
         Tref = float(case['T_ref'])
         const = (float(case['eta_ref']), Tref, E, V)
         with repo_call('viscosity_models.reference'):
-            v = _vec(vm.reference, arr, [temps, press], const)[0]
+            v = _vec(vm.reference, arr, [temps, press], const, name='reference', li=(0, 1), ci=(0, 1, 2))[0]
         expo = [B * (1.0 / t - 1.0 / Tref) for t in temps]
         extra = [B / t + B / Tref for t in temps]
         addT = False
@@ -710,7 +928,7 @@ def _ev_visc(case, c):
         const = (float(case['coeff']), addT, float(case['stress']), float(case['stress_expo']), float(case['grain']),
                  float(case['grain_expo']), E, V)
         with repo_call('viscosity_models.arrhenius'):
-            v = _vec(vm.arrhenius, arr, [temps, press], const)[0]
+            v = _vec(vm.arrhenius, arr, [temps, press], const, name='arrhenius', li=(0, 1), ci=(2, 3, 5, 6))[0]
         expo = [B / t for t in temps]
         extra = expo
         c.label('visc:addT' if addT else 'visc:no_addT')
@@ -752,16 +970,17 @@ def _ev_henning(case, c):
     if case['T_mode'] == 'linked':
         temps = [sol + p * (liq - sol) for p in phis]
     else:
-        temps = [float(case['T_free']) * sol] * n
+        temps = [_rt(float(case['T_free']) * sol)] * n
     eta_pre, eta_liq, mu_pre, mu_liq = (float(case[x]) for x in ('eta_pre', 'eta_liq', 'mu_pre', 'mu_liq'))
     const = (sol, liq, mu_liq, crit, width, float(case['visc_slope_1']), float(case['visc_falloff']),
-             float(case['shear_p1_over_solidus']) * sol, float(case['shear_p2']), float(case['shear_falloff']))
+             _rt(float(case['shear_p1_over_solidus']) * sol), float(case['shear_p2']), float(case['shear_falloff']))
     md = _mode(case)
     c.nontrivial = len(set(phis)) >= 2
     if eta_pre == eta_liq:
         c.label('henning:eta_pre=eta_liq')
     with repo_call('melting_models.henning'):
-        eta, mu = _vec(mm.henning, arr, [phis, temps, [eta_pre] * n, [eta_liq] * n, [mu_pre] * n], const, nout=2)
+        eta, mu = _vec(mm.henning, arr, [phis, temps, [eta_pre] * n, [eta_liq] * n, [mu_pre] * n], const, nout=2,
+                       name='henning', li=(1, 2, 3, 4), ci=(0, 1, 2, 5, 6, 7, 8, 9))
     ctx = ('eta_pre=%r eta_liq=%r mu_pre=%r mu_liq=%r (solidus, liquidus, liquid_shear, crit, width, visc_slope_1, visc_falloff, '
            'shear_p1, shear_p2, shear_falloff)=%r' % (eta_pre, eta_liq, mu_pre, mu_liq, const))
     for i, p in enumerate(phis):
@@ -801,7 +1020,7 @@ def _ev_spohn(case, c):
     const = (mu_liq, float(case['visc_slope']), float(case['visc_phase']), float(case['shear_slope']), float(case['shear_phase']))
     md = _mode(case)
     with repo_call('melting_models.spohn'):
-        eta, mu = _vec(mm.spohn, arr, [phis, temps, [eta_liq] * n], const, nout=2)
+        eta, mu = _vec(mm.spohn, arr, [phis, temps, [eta_liq] * n], const, nout=2, name='spohn', li=(1, 2), ci=(0, 1, 2, 3, 4))
     for i in range(n):
         c.label('spohn:visc_clamped' if eta[i] == eta_liq else 'spohn:visc_free',
                 'spohn:shear_clamped' if mu[i] == mu_liq else 'spohn:shear_free')
@@ -818,7 +1037,7 @@ def _ev_melt_off(case, c):
     n = len(phis)
     eta_pre, mu_pre = float(case['eta_pre']), float(case['mu_pre'])
     with repo_call('melting_models.off'):
-        eta, mu = _vec(mm.off, arr, [phis, [eta_pre] * n, [mu_pre] * n], (), nout=2)
+        eta, mu = _vec(mm.off, arr, [phis, [eta_pre] * n, [mu_pre] * n], (), nout=2, name='melt_off', li=(1, 2))
     c.check(all(x == eta_pre for x in eta) and all(x == mu_pre for x in mu), {'clause': 'melt/off'},
             '%s off law changed the pre-melt values: %r %r vs %r %r' % (_mode(case), eta, mu, eta_pre, mu_pre))
 
